@@ -76,8 +76,10 @@ class C08(DevProp):
             flip = (ci // 6) % 2 == 1
             with_neg = (ci // 12) % 3 != 2
             note, noteneg = rng.choice([0, 3, 36, 60, 100, 124, 127]), rng.choice([1, 2, 48, 72, 125, 126])
+            # unsigned axes: with and without deadzone_at_center (re-centred by the dead-zone shaping instead of by the emulation branch)
             an = agen.analog(agen.ABS_HAT0X if kind == "hat" else agen.ABS_X, "key", note=note, noteneg=(noteneg if with_neg else 0),
-                             off=rng.choice([0, 2, 15]), offneg=rng.choice([0, 5]), flip=flip, bidi=with_neg)
+                             off=rng.choice([0, 2, 15]), offneg=rng.choice([0, 5]), flip=flip, bidi=with_neg,
+                             dzc=(mn == 0 and (ci // 2) % 2 == 1))
             code = an["code"]
             other = agen.analog(agen.ABS_Y, "key", note=64, noteneg=65, off=1, offneg=1, bidi=True)
             absl = [{"code": code, "min": mn, "max": mx}, {"code": agen.ABS_Y, "min": -128, "max": 127}]
